@@ -199,6 +199,27 @@ pub fn k_c03_fri_remainder_bound() {
     vreach!("C03.fri.remainder.reach");
 }
 
+// C09 "the declared bound is below the true degree": with no FRI layer the remainder is the polynomial itself;
+// a remainder with one coefficient more than the declared bound allows (bound 3 => at most 4 coefficients)
+// must be rejected whatever its values, its commitment and the queried evaluation are.
+//# harness: fn=FriVerifier::new, FriVerifier::verify, verify_generic::<2> (zero FRI layers, remainder length check); label=bounded(domain 8, remainder of 5 coefficients = bound + 2, 1 query; every element, digest and position); tier=quick; props=C09; timeout=900
+#[cfg_attr(kani, kani::proof)]
+#[cfg_attr(kani, kani::unwind(66))]
+#[cfg_attr(kani, kani::stub(alloc::fmt::format, vs::fake_format))]
+pub fn k_c09_fri_overlong_remainder_rejected() {
+    let commitment = any_digest();
+    let remainder = alloc::vec![any_elem(), any_elem(), any_elem(), any_elem(), any_elem()];
+    let mut ch = MockChannel { commitments: alloc::vec![commitment], remainder, queries: Vec::new(), proof: 0 };
+    let mut coin = MockCoin;
+    let opts = FriOptions::new(2, 2, 3);
+    let v = FriVerifier::<F64, MockChannel, HM, MockCoin, RecVC>::new(&mut ch, &mut coin, opts, 3).unwrap();
+    let pos = vs::any_usize();
+    vs::assume(pos < 8);
+    let ev = any_elem();
+    let res = v.verify(&mut ch, &[ev], &[pos]);
+    vcheck!("C09.fri.remainder_one_longer_than_bound_rejected", res.is_err());
+}
+
 //# harness: fn=FriVerifier::verify (argument checks); label=complete; tier=quick; props=C09; timeout=600
 #[cfg_attr(kani, kani::proof)]
 #[cfg_attr(kani, kani::unwind(66))]
